@@ -26,6 +26,7 @@ func runC09(c *core.Ctx) {
 	h.requestsFromOwnLog("C09.4b requests-at-snapshot-boundary")
 	c.Clause("C09.5 follower keeps a matching suffix, otherwise discards and restores")
 	h.installSnapshotHandler("C09.5 install-handler")
+	h.installCommitsWhatItKeeps("C09.5b install-commit")
 	h.staleSnapshotIgnored("C09.6 stale-snapshot-ignored")
 	h.snapshotOrder("C09.7 snapshot-order")
 	h.labelCoherence("C09.1c label-coherence")
